@@ -109,8 +109,13 @@ def run(chk):
         d = os.path.join(root, "in")
         os.mkdir(d)
 
-        def check_file(name, data, seed, in_model):
+        def check_file(name, data, seed, in_model, via_link=False):
             p = os.path.join(d, name)
+            if via_link:
+                # the entry is a symbolic link to the file: "the content of the file" is what the link leads to
+                p = os.path.join(d, "target-of-" + name)
+                os.symlink(os.path.basename(p), os.path.join(d, name))
+                stats["via_link"] = stats.get("via_link", 0) + 1
             with open(p, "wb") as fh:
                 fh.write(data)
             os.chmod(p, 0o444 if len(data) % 2 else 0o644)
@@ -125,8 +130,8 @@ def run(chk):
                     got = pats[t].process(f)
                 finally:
                     del H.open
-                case = {"tag": t, "length": len(data), "seed": seed, "file": name}
-                chk.count(("tag", t, len(data), seed))
+                case = {"tag": t, "length": len(data), "seed": seed, "file": name, "via_symlink": via_link}
+                chk.count(("tag", t, len(data), seed, via_link))
                 if got != std[t](data):
                     chk.oracle_fail("%%%s() rendered %r, standard digest of the whole file is %r" % (t, got, std[t](data)), case)
                 if t in ref and len(data) <= 70000 and got != ref[t](data):
@@ -145,11 +150,23 @@ def run(chk):
                 chk.oracle_fail("file modified by a hash tag", {"file": name, "length": len(data)})
             os.chmod(p, 0o644)
             os.unlink(p)
+            if via_link:
+                os.unlink(os.path.join(d, name))
 
         for i, ln in enumerate(lengths):
             seed = rng.randrange(65536)
             check_file("f%d.bin" % i, lcg_bytes(seed, ln), seed, True)
             stats["lengths"].append(ln)
+        # order effects: the same tag instances see an empty file AFTER non-empty ones, equal contents twice in a row,
+        # and files reached through a symbolic link (whose own lstat size is the length of the target string)
+        seq = [5, 0, 0, 3, 0, chunk + 1, 0, 1, 1]
+        for i, ln in enumerate(seq):
+            seed = rng.randrange(65536)
+            check_file("s%d.bin" % i, lcg_bytes(seed, ln), seed, True)
+        for i, ln in enumerate([0, 1, 7, 40, 200, chunk - 1, chunk + 3, 0]):
+            seed = rng.randrange(65536)
+            check_file("l%d.bin" % i, lcg_bytes(seed, ln), seed, True, via_link=True)
+        stats["order_sequence"] = seq
         # contents whose CRC has leading zeros (searched), short so that the model evaluates them too
         found = 0
         seed = rng.randrange(65536)
